@@ -10,8 +10,13 @@ import time
 VERIF = os.path.dirname(os.path.dirname(os.path.abspath(__file__)))
 REPO = os.environ.get("VERIF_REPO", "/repo")
 WORK = os.path.join(VERIF, ".work")
-EVIDENCE_DIR = os.path.join(VERIF, "evidence")
-REPLAY_DIR = os.path.join(VERIF, "replays")
+# Development aid: VERIF_REPO=<dir> points the checks at another checkout (a scratch worktree with a
+# seeded change applied) without touching /repo; evidence/replays then go under .work so that the
+# committed evidence is only ever written by runs against /repo itself.
+ALT = REPO != "/repo"
+ALT_TAG = re.sub(r"[^A-Za-z0-9]+", "_", REPO).strip("_") if ALT else ""
+EVIDENCE_DIR = os.path.join(WORK, "evidence-" + ALT_TAG) if ALT else os.path.join(VERIF, "evidence")
+REPLAY_DIR = os.path.join(WORK, "replays-" + ALT_TAG) if ALT else os.path.join(VERIF, "replays")
 KNOWN_FINDINGS = os.path.join(VERIF, "known_findings.json")
 HOOK_CFG = "alexhuszagh_rust_lexical_verif"
 
